@@ -733,7 +733,11 @@ def main(tier: str) -> int:
         "is ONE variable token whose selector text is cleaned by ExprSpec.clean_sel = clean_up_paren_token on brackets without "
         "single quotes / escapes / comments; tied by the exact emitted holder text on every bracketed case)",
         "C02_partial / C02_optimize_correct assume 32-bit scores in the initial state (int32_state), which Minecraft guarantees",
-        "mcvm.py (untrusted Python VM) is used only to search for failing inputs and to classify known findings",
+        "Model/ExprCtx.v: hand-written port of the placement of a statement that follows `run` (FuncContent.__handle_startswith_var: "
+        "private function `anonymous/N`, `return run` on its last line) and of the chained assignment (variable_operation), as repaired by "
+        "fixes/C02-10 / C02-11; tied by the exact text of the enclosing function and of every private function on the placed statements; "
+        "`xrun` (Minecraft's `return` with return values, void functions) is a specification layer over MC.Sem, trusted like MC.Sem",
+        "mcvm.py / c02_ctx.RVM (untrusted Python VMs) are used only to search for failing inputs and to classify known findings",
     ]
     import time
     phases, t0 = {}, time.time()
@@ -830,7 +834,8 @@ def main(tier: str) -> int:
              f"({n_exh}), bracketed selectors `obj:@e[tag=x, limit=1]`: every (target spelling, operand spelling) pair of one holder "
              "(blanks, tabs, line breaks, quoted value with a blank) x 13 shapes + other argument order / other objective as different holders, "
              "also mixed into the random streams; unary/parenthesised variants, sampled depth-2, flat chains, random trees to depth 5, variable-only trees to depth 6, boundary literals; "
-             "distinct = distinct (target, form, expression, names) with at least one operator",
+             "distinct = distinct (target, form, expression, names) with at least one operator; then statements of all streams placed behind "
+             "`execute if/unless score ... run`, `return run`, chained `=`, braces-less `if` (context_* entries)",
         samples=[dict(statement=c["stmt"], emitted=c["real"]) for c in (cases[100:102] + cases[-3:])],
         programs=len(cases), disagreements_checked=len(mism),
         depth_histogram=sizes, tag_histogram=dict(zip(ALL_TAGS, res["tagcount"])),
